@@ -173,6 +173,7 @@ fn build_ext(comb: &str, kids: Vec<Child>) -> PollFn {
 macro_rules! nest_arrays { ($k:literal, $comb:expr, $a:expr, $b:expr) => {{
     fn fa(v: Vec<Child>) -> [Fut; $k] { let v: Vec<Fut> = v.into_iter().map(Fut).collect(); v.try_into().ok().unwrap() }
     fn sa(v: Vec<Child>) -> [Str; $k] { let v: Vec<Str> = v.into_iter().map(Str).collect(); v.try_into().ok().unwrap() }
+    fn ta(v: Vec<Child>) -> [TryFut; $k] { let v: Vec<TryFut> = v.into_iter().map(TryFut).collect(); v.try_into().ok().unwrap() }
     let (a, b) = ($a, $b);
     let flat = |o: [[Val; $k]; 2]| list("R", &o.into_iter().flatten().map(take).collect::<Vec<u64>>());
     match $comb {
@@ -180,6 +181,7 @@ macro_rules! nest_arrays { ($k:literal, $comb:expr, $a:expr, $b:expr) => {{
         "nest_jr" => fut_fn([fa(a).race(), fa(b).race()].join(), |o| list("R", &o.into_vals())),
         "nest_rj" => fut_fn([fa(a).join(), fa(b).join()].race(), |o| list("R", &o.into_vals())),
         "nest_jt" => fut_fn(futures_concurrency::future::FutureExt::join(fa(a).join(), fa(b).join()), move |(x, y): ([Val; $k], [Val; $k])| flat([x, y])),
+        "nest_tt" => fut_fn([ta(a).try_join(), ta(b).try_join()].try_join(), |o: Result<[[Val; $k]; 2], u64>| match o { Ok(x) => list("O", &x.into_iter().flatten().map(take).collect::<Vec<u64>>()), Err(e) => format!("E:F{e}") }),
         "nest_mm" => str_fn([sa(a).merge(), sa(b).merge()].merge(), |o| list("S", &o.into_vals())),
         "nest_cm" => str_fn([sa(a).merge(), sa(b).merge()].chain(), |o| list("S", &o.into_vals())),
         "nest_zm" => str_fn([sa(a).merge(), sa(b).merge()].zip(), |o| list("S", &o.into_vals())),
@@ -191,17 +193,19 @@ macro_rules! nest_arrays { ($k:literal, $comb:expr, $a:expr, $b:expr) => {{
 /// the same nests over TUPLES (outer 2-tuple, inner K-tuples; cont `nestt`, n = 2K): the macro-generated impls; for join the tuple algorithm
 #[cfg(any(feature = "fc-std", feature = "fc-alloc"))]
 macro_rules! nest_tuples {
-    (@F $x:ident) => { Fut }; (@S $x:ident) => { Str };
+    (@F $x:ident) => { Fut }; (@S $x:ident) => { Str }; (@T $x:ident) => { TryFut }; (@t $x:ident $it:ident) => { TryFut($it.next().unwrap()) };
     (@f $x:ident $it:ident) => { Fut($it.next().unwrap()) }; (@s $x:ident $it:ident) => { Str($it.next().unwrap()) };
     ($comb:expr, $a:expr, $b:expr, $($x:ident)+) => {{
         fn ft(v: Vec<Child>) -> ($(nest_tuples!(@F $x),)+) { let mut it = v.into_iter(); ($(nest_tuples!(@f $x it),)+) }
         fn st(v: Vec<Child>) -> ($(nest_tuples!(@S $x),)+) { let mut it = v.into_iter(); ($(nest_tuples!(@s $x it),)+) }
+        fn tt(v: Vec<Child>) -> ($(nest_tuples!(@T $x),)+) { let mut it = v.into_iter(); ($(nest_tuples!(@t $x it),)+) }
         let (a, b) = ($a, $b);
         match $comb {
             "nest_jj" => fut_fn((ft(a).join(), ft(b).join()).join(), |(x, y)| { let mut v = x.into_vals(); v.extend(y.into_vals()); list("R", &v) }),
             "nest_jr" => fut_fn((ft(a).race(), ft(b).race()).join(), |o| list("R", &o.into_vals())),
             "nest_rj" => fut_fn((ft(a).join(), ft(b).join()).race(), |o| list("R", &o.into_vals())),
             "nest_jt" => fut_fn(futures_concurrency::future::FutureExt::join(ft(a).join(), ft(b).join()), |(x, y)| { let mut v = x.into_vals(); v.extend(y.into_vals()); list("R", &v) }),
+            "nest_tt" => fut_fn((tt(a).try_join(), tt(b).try_join()).try_join(), |o| match o { Ok((x, y)) => { let mut v = x.into_vals(); v.extend(y.into_vals()); list("O", &v) }, Err(e) => format!("E:F{e}") }),
             "nest_mm" => str_fn((st(a).merge(), st(b).merge()).merge(), |o| list("S", &o.into_vals())),
             "nest_cm" => str_fn((st(a).merge(), st(b).merge()).chain(), |o| list("S", &o.into_vals())),
             "nest_zm" => str_fn((st(a).merge(), st(b).merge()).zip(), |o| list("S", &o.into_vals())),
@@ -224,12 +228,14 @@ fn build_nest(comb: &str, cont: &str, kids: Vec<Child>) -> PollFn {
     }
     fn futs(v: Vec<Child>) -> Vec<Fut> { v.into_iter().map(Fut).collect() }
     fn strs(v: Vec<Child>) -> Vec<Str> { v.into_iter().map(Str).collect() }
+    fn tfs(v: Vec<Child>) -> Vec<TryFut> { v.into_iter().map(TryFut).collect() }
     let flat = |o: Vec<Vec<Val>>| list("R", &o.into_iter().flatten().map(take).collect::<Vec<u64>>());
     match comb {
         "nest_jj" => fut_fn(vec![futs(a).join(), futs(b).join()].join(), flat),
         "nest_jr" => fut_fn(vec![futs(a).race(), futs(b).race()].join(), |o| list("R", &o.into_vals())),
         "nest_rj" => fut_fn(vec![futs(a).join(), futs(b).join()].race(), |o| list("R", &o.into_vals())),
         "nest_jt" => fut_fn(futures_concurrency::future::FutureExt::join(futs(a).join(), futs(b).join()), move |(x, y): (Vec<Val>, Vec<Val>)| flat(vec![x, y])),
+        "nest_tt" => fut_fn(vec![tfs(a).try_join(), tfs(b).try_join()].try_join(), |o| match o { Ok(x) => list("O", &x.into_iter().flatten().map(take).collect::<Vec<u64>>()), Err(e) => format!("E:F{e}") }),
         "nest_mm" => str_fn(vec![strs(a).merge(), strs(b).merge()].merge(), |o| list("S", &o.into_vals())),
         "nest_cm" => str_fn(vec![strs(a).merge(), strs(b).merge()].chain(), |o| list("S", &o.into_vals())),
         "nest_zm" => str_fn(vec![strs(a).merge(), strs(b).merge()].zip(), |o| list("S", &o.into_vals())),
